@@ -57,6 +57,8 @@ func runC07(p *core.Prog, r *core.Result) {
 		"R7.6 TUPLE2/TUPLE3 restore operand order; TUPLEn is emitted after exactly n elements",
 		"R7.7 every MARK is closed by exactly one collector on every path; the collector's decoder case expects the container type that the paired EMPTY_* case pushes",
 		"R7.8 scalar opcodes decode to the same Starlark type that selected them in the encoder",
+		"R7.9 operand-stack discipline (bytecode-verifier style): with the stack effects read off the decoder's cases, every encoder path leaves exactly one value per encoded value and stack heights agree at every join",
+		"R7.10 no slice of the decoder's operand stack or memo escapes into a decoded value",
 	}
 	r.NotDecided = []string{"sharing of tuples reached twice (encoder memoizes tuples after their contents; source says TODO)", "float/NaN bit patterns and big-integer text round trip (delegated to math and math/big)", "Starlark container semantics (hashing, ordering of dict/set elements)", "lengths and memo ids >= 2^32 (assumed impossible)"}
 	r.Assumptions = append(r.Assumptions, "string/bytes lengths and memo sizes are < 2^32 (4-byte payloads have no upper guard in the encoder)")
@@ -249,6 +251,10 @@ func runC07(p *core.Prog, r *core.Result) {
 
 	// ---- R7.7 mark pairing + container type agreement, R7.8 scalar type agreement
 	checkMarksAndTypes(p, r, ops, dt, ems)
+
+	// ---- R7.9 operand-stack discipline, R7.10 no aliasing of the operand stack
+	checkStackDiscipline(p, r, ops, dt, ems)
+	checkNoStackAliasing(p, r)
 }
 
 func checkMemoParity(p *core.Prog, r *core.Result, ops *opTable, dt *decoderTable, memoizeE *ssa.Function) {
